@@ -1,5 +1,6 @@
 import PV.Lemmas.SocketCalls
 import PV.Lemmas.SocketGetters
+import PV.Lemmas.SocketFd
 /-!
 # C10 — Socket modes and lifecycle
 
@@ -343,5 +344,73 @@ theorem getters_reflect (steps : List (WCall × Script)) (e : Int) (slot : Nat) 
     shutdown both, close twice, call on an empty slot — model and spec worlds agree, and are not trivial -/
 example : (run [] [] 0 demoSteps).1.map (fun p => (p.1, Spec.flagsOf p.2)) = (run [] [] 0 demoSteps).2
     ∧ (run [] [] 0 demoSteps).2.length = 1 := by decide
+
+/-! ## 4. `cloexec`   (kernel side: `cloexecAfter`, contract `fcntlFdOk` — trusted)
+
+`p_socket_new` asks for SOCK_CLOEXEC and then runs `F_GETFD` / `F_SETFD (flags | FD_CLOEXEC)`;
+`p_socket_accept` uses plain `accept()` (not `accept4`) followed by the same block, so between the two
+native calls the fresh descriptor is inheritable (a window for `fork+exec` in another thread — not
+visible to a single-threaded model, recorded as a remark).  "By the time the call returns": -/
+
+/-- every socket object returned by `p_socket_new` holds a descriptor with close-on-exec set, provided the
+    `fcntl (F_GETFD / F_SETFD)` calls on it do not fail (they cannot on a valid descriptor) -/
+theorem cloexec (f t p : Int) (script : Script) (e : Int) (s : Sock) (err : Option PErr) (st : St) (evs : List Ev)
+    (h : runM (new f t p) script e = .ok ((some s, err), st, evs)) (hk : fcntlFdOk s.fd evs = true) :
+    cloexecAfter s.fd evs false = true :=
+  cloexec_new f t p script e s err st evs h hk
+
+/-- … and every socket object returned by `p_socket_accept` (on every path that keeps the descriptor), same proviso -/
+theorem cloexec_accepted (s : Sock) (script : Script) (e : Int) (r : CallResult) (ns : Sock)
+    (h : call s .accept script e = .ok r) (hs : r.out.sock = some ns) (hk : fcntlFdOk ns.fd r.tr = true) :
+    cloexecAfter ns.fd r.tr false = true :=
+  cloexec_accept s script e r ns h hs hk
+
+/-- the code as it is when the proviso fails: `F_SETFD` fails after `accept` → only a warning, the object for
+    descriptor 7 is returned and the flag is NOT set -/
+example :
+    (call { demoSockC10 with connected := false, listening := true } .accept
+      ([{ sys := .poll, ret := .ok 1 }, { sys := .accept, ret := .ok 7 }, { sys := .fcntl, ret := .ok 0 },
+        { sys := .fcntl, ret := .err EBADF }] ++ newFromFdAnswers)).toOption.map
+      (fun r => (r.out.sock.map (·.fd), r.out.sock.map (fun ns => cloexecAfter ns.fd r.tr false))) =
+    some (some 7, some false) := by decide
+
+/-! ## 5. `fd_closed_once`   (kernel side: `fdTable` — trusted)
+
+Sequences: `Reach w tr` = the world `w` and the whole trace `tr` reached from nothing by any API calls
+(`p_socket_new`, every call on a socket incl. accept / close, `p_socket_free`, init_once) on any scripts;
+a slot is only filled when empty (`WCall.Disciplined`; overwriting a live pointer is the caller's leak);
+`p_socket_new_from_fd` on a caller-supplied descriptor (ownership transfer) is outside this theorem.
+Kernel contract: `FreshFrom [] tr` (socket()/accept() never return a number that is open) and
+`ClosesSucceed tr` (close() returns 0). -/
+
+/-- the descriptor table of the whole trace is defined — **no number is passed to `close()` twice or without
+    having been obtained** — and the open numbers are exactly, without repetition, the `fd` fields of the live
+    objects not marked closed (incl. the failed-`new_from_fd` path inside accept and the failed
+    `set_fd_blocking` path inside new, where the library closes the fresh descriptor itself) -/
+theorem fd_closed_once_invariant {w : World} {tr : List Ev} (h : Reach w tr) (hfr : FreshFrom [] tr) (hcl : ClosesSucceed tr) :
+    ∃ T, fdTable tr [] = some T ∧ FdInv w T :=
+  fd_closed_once h hfr hcl
+
+/-- hence, once every object is freed or closed, every descriptor obtained was closed **exactly once** -/
+theorem fd_closed_once_all {w : World} {tr : List Ev} (h : Reach w tr) (hfr : FreshFrom [] tr)
+    (hcl : ClosesSucceed tr) (hall : w.openFds = []) : fdTable tr [] = some [] :=
+  fd_closed_once_balanced h hfr hcl hall
+
+/-- the failing-`close()` case, as the code behaves: `p_socket_close` reports the error and keeps `fd`, a later
+    `p_socket_free` passes the same number to `close()` again (on Linux the first call had released it: stray close) -/
+theorem failing_close_is_closed_twice :
+    ((wstep [(0, demoOpenSock)] (.on 0 .close) [{ sys := .close, ret := .err EINTR }]).toOption.bind fun r1 =>
+      (wstep r1.world (.free 0) [{ sys := .close, ret := .ok 0 }]).toOption.map fun r2 =>
+        ((r1.tr ++ r2.tr).map (fun ev => (ev.call, ev.res.ret)), fdTable (r1.tr ++ r2.tr) [5])) =
+    some ([(.close 5, .err EINTR), (.close 5, .ok 0)], none) := by decide
+
+/-- non-vacuity (conclusion exercised on a concrete run): new → 7, accept → 8, both freed: closes are exactly 7 and 8 -/
+example :
+    (wrun [] [] [.new 0 AF_INET P_SOCKET_TYPE_STREAM P_SOCKET_PROTOCOL_TCP, .on 0 .accept 1, .free 0, .free 1]
+      ([{ sys := .socket, ret := .ok 7 }, { sys := .fcntl, ret := .ok 1 }, { sys := .fcntl, ret := .ok 2 }, { sys := .fcntl, ret := .ok 0 },
+        { sys := .poll, ret := .ok 1 }, { sys := .accept, ret := .ok 8 }, { sys := .fcntl, ret := .ok 0 }, { sys := .fcntl, ret := .ok 0 }]
+       ++ newFromFdAnswers ++ [{ sys := .close, ret := .ok 0 }, { sys := .close, ret := .ok 0 }]) 0).toOption.map
+      (fun x => (x.2.map (·.call) |>.filter (fun c => c.sys == .close), fdTable x.2 [])) =
+    some ([.close 7, .close 8], some []) := by decide
 
 end PV.Socket
